@@ -177,6 +177,40 @@ func (aux *Aux) AccessorOnly() bool {
 	return true
 }
 
+// keepAccessorMethods copies the methods that were not defined with Lisp
+// code, the reader, writer, and accessor methods made by a defclass, to
+// another Aux with the same number of required arguments.
+func (aux *Aux) keepAccessorMethods(to *Aux) {
+	aux.moo.Lock()
+	defer aux.moo.Unlock()
+	if aux.reqCnt != to.reqCnt {
+		return
+	}
+	for k, m := range aux.methods {
+		if len(m.Combinations) == 0 {
+			continue
+		}
+		var kept slip.Combination
+		for _, cc := range []struct {
+			from slip.Caller
+			to   *slip.Caller
+		}{
+			{m.Combinations[0].Primary, &kept.Primary},
+			{m.Combinations[0].Before, &kept.Before},
+			{m.Combinations[0].After, &kept.After},
+			{m.Combinations[0].Wrap, &kept.Wrap},
+		} {
+			if _, ok := cc.from.(*slip.Lambda); !ok && cc.from != nil {
+				*cc.to = cc.from
+			}
+		}
+		if !kept.Empty() {
+			to.methods[k] = &slip.Method{Name: m.Name, Doc: m.Doc, Combinations: []*slip.Combination{&kept}}
+		}
+	}
+	to.updateDefaultCaller()
+}
+
 // LoadForm returns a list that can be evaluated to define a generic and all
 // specialized methods for the generic.
 func (aux *Aux) LoadForm() slip.Object {
